@@ -1,10 +1,20 @@
-"""C03 — configuration of the check (deductive tier under construction)."""
+"""C03 — Parallel stages hand every work item to exactly one worker and then terminate."""
 PROPERTY = "C03"
 LEVEL = "other"
-CONTRACT_MODULES = ["contracts.specfuns"]
-FUNCTIONS = []
+CONTRACT_MODULES = ["contracts.specfuns", "contracts.lemmas_desc", "contracts.pyramid", "contracts.parallel"]
+FUNCTIONS = [
+    "toasty.pyramid.Pyramid.visit_leaves",
+    "toasty.pyramid.Pyramid._visit_leaves_serial",
+    "toasty.pyramid.Pyramid._visit_leaves_parallel",
+    "toasty.pyramid._mp_visit_worker",
+    "toasty.transform._do_a_transform",
+    "toasty.transform._transform_parallel",
+    "toasty.transform._transform_mp_worker",
+]
 LEMMAS = []
 SLOW = ()
-TRUSTED_BASE = []
-ASSUMPTIONS = []
-EXPLANATION = "bounded run-time tier only so far"
+TRUSTED_BASE = ["pyvc VC generator; z3/cvc5", "multiprocessing Queue/Event/Process contracts of DESIGN.md 3.4 (rely conditions)"]
+ASSUMPTIONS = ["no scheduler fairness and no termination is assumed or proved (liveness is outside this technique)",
+               "multi_tan / multi_wcs tiling workers are covered by the bounded tier only (their bodies need the array model)"]
+EXPLANATION = ("producer traces (one put per serial item, of that very item, from the same enumeration; close, flush, flag, join) "
+               "and worker guarantees (one callback per item, exit only on time-out with the flag set) proved under the queue contract")
